@@ -1460,6 +1460,20 @@ pub struct MemReport {
 
 /// Executes a scenario on the managed thread pool and returns everything the oracles need.
 pub fn run_scenario(sc: &Scenario) -> Execution {
+    // memory-safety scenarios may crash the process (a wild pointer followed before any hook
+    // sees it): leave the case on disk so that the driver can report it
+    let crash_file = if sc.opts.quarantine { std::env::var("MQV_CRASH_FILE").ok() } else { None };
+    if let Some(f) = &crash_file {
+        let _ = std::fs::write(f, serde_json::to_string(sc).unwrap_or_default());
+    }
+    let ex = run_scenario_inner(sc);
+    if let Some(f) = &crash_file {
+        let _ = std::fs::remove_file(f);
+    }
+    ex
+}
+
+fn run_scenario_inner(sc: &Scenario) -> Execution {
     payload::ledger_reset();
     handles::notified_reset();
     let sequential = sc.opts.model;
@@ -1482,9 +1496,14 @@ pub fn run_scenario(sc: &Scenario) -> Execution {
             accepted: 0,
         }),
     });
+    // default spin counts (50 + 50 attempts per call) make single calls thousands of read-only
+    // points long: the stuck-state threshold and the step budget grow with them
+    let (sa, sy) = sc.q.spins();
+    let long_spins = sa + sy >= 50;
     let cfg = ExecCfg {
         schedule: sc.sched.clone(),
-        max_steps: sc.opts.max_steps,
+        livelock: if long_spins { 60_000 } else { 4_000 },
+        max_steps: if long_spins { sc.opts.max_steps.max(400_000) } else { sc.opts.max_steps },
         weak_cas_fail: sc.opts.weak_cas,
         quarantine: sc.opts.quarantine,
         ..ExecCfg::default()
